@@ -24,7 +24,8 @@ TRUSTED = ["pickle.dump/load is the identity on int, bool, list of [str,int,int]
            "configparser write/read round trip of the .sav file",
            "the key-press thread is replaced by an inert stand-in that never reads stdin; the quit is pcfg.should_exit set from the "
            "print_guess wrapper (for a loop that polls thread liveness the stand-in's is_alive() is `not should_exit`); thread "
-           "timing and stdin are C12's subject"]
+           "timing and stdin are C12's subject",
+           "translator tie of the session loop: harness/translate_session.py (ast -> Gallina, fail closed; accepted subset and what it does not model in its docstring) and the meaning coq/theories/SessionRt.v gives to `while`, break, try/except OSError, `if limit:` and `x is None`; every collaborator of CrackingSession.run / _save_session (queue, grammar object with quit flag and OMEN counters, save configuration and file, keyboard thread) is an operation on an abstract world: the translated text equals SessionModel.m_run for every world (C12_source_run_is_model), and the property theorems instantiate the world with the collaborators of Session.v (SessionModel.sworld) or constrain it by a contract (quiet_world)"]
 ASSUMES = ["wf_tables G, first_below_max G", "a further pre-terminal is popped after the interrupted level (else nothing is saved: R18)",
            "the pop that follows does not have exactly the level's probability (else the level is in C08's tied group and is "
            "regenerated once)"]
@@ -549,6 +550,9 @@ def run(ctx):
             "of the level exactly, nothing after it lost, the level not regenerated unless tied with the saved probability; for two cuts "
             "per level a second quit (inside the remainder / outside the level) and a third run: no replay; non-trivial = the cut is "
             "strictly inside the level; distinct by (ruleset, cut list)")
+    # translator tie of the session-level bookkeeping (_save_session = sess_quit, the --load prologue = sess_restore)
+    import session_tie
+    corr.append(session_tie.obligation("session"))
     return {"evaluations": evaluations, "distinct_nontrivial": nontrivial, "rule": rule, "samples": samples,
             "corr": corr, "violations": vio, "dist": dict(dist)}
 
